@@ -189,7 +189,7 @@ def eval_terms(name: str, imports: Sequence[str], terms: Sequence[str], timeout:
     return _coqc(path, timeout)
 
 
-def clean_stale(max_age_s: int = 6 * 3600) -> None:
+def clean_stale(max_age_s: int = 2 * 3600) -> None:
     """Remove case files left behind by runs that died long ago."""
     if os.path.isdir(CORR_DIR):
         now = time.time()
